@@ -35,14 +35,30 @@ theorem get_set_other {k q : String} (v : Json) (h : k ≠ q) : ∀ o : Obj, get
       · subst hq; simp [set, get, hk]
       · simp [set, get, hk, hq, get_set_other v h r]
 
+theorem get_erase_same (k : String) : ∀ o : Obj, get k (erase k o) = none
+  | [] => by simp [erase, get]
+  | (k', v') :: r => by
+    have ih := get_erase_same k r
+    simp only [erase] at ih
+    by_cases hk : k' = k
+    · subst hk; simp [erase, ih]
+    · simp [erase, hk, get, ih]
+
 theorem get_erase_other {k q : String} (h : k ≠ q) : ∀ o : Obj, get q (erase k o) = get q o
   | [] => by simp [erase, get]
   | (k', v') :: r => by
+    have ih := get_erase_other h r
+    simp only [erase] at ih
     by_cases hk : k' = k
-    · subst hk; simp [erase, get, h]
+    · subst hk; simp [erase, get, h, ih]
     · by_cases hq : k' = q
-      · subst hq; simp [erase, get, hk]
-      · simp [erase, get, hk, hq, get_erase_other h r]
+      · subst hq; simp [erase, hk, get]
+      · simp [erase, hk, get, hq, ih]
+
+theorem get_erase_none {k q : String} (o : Obj) (h : get q o = none) : get q (erase k o) = none := by
+  by_cases hk : k = q
+  · subst hk; exact get_erase_same k o
+  · rw [get_erase_other hk]; exact h
 
 /-! ### frame: `_convert` leaves every key alone that the mapping has no entry for -/
 
@@ -131,6 +147,130 @@ theorem convert_frame {q : String} (m : Mapping) (kvs : Obj) (r : Json)
 /-- `_convert` with the empty mapping is the (deep-copied) identity -/
 theorem convert_nil (d : Json) : convert [] d = .ok d := by
   cases d <;> simp [convert, compileMap, convShape, loop1, loop2, loop3, nonObj1, nonObj2, nonObj3]
+
+/-! ### the `deleted` and `constant` clauses of the single-step contract -/
+
+theorem loop3_deleted {k : String} : ∀ (m : CMapping) (out : Obj),
+    ((k, CEntry.deleted) ∈ m ∨ get k out = none) → get k (loop3 m out) = none
+  | [], out, h => by
+    rcases h with h | h
+    · cases h
+    · simpa [loop3] using h
+  | (k', e) :: r, out, h => by
+    cases e with
+    | deleted =>
+      simp only [loop3]
+      apply loop3_deleted r
+      rcases h with h | h
+      · rcases List.mem_cons.mp h with h | h
+        · cases h; right; exact get_erase_same k out
+        · left; exact h
+      · right; exact get_erase_none out h
+    | const v =>
+      simp only [loop3]; apply loop3_deleted r
+      rcases h with h | h
+      · rcases List.mem_cons.mp h with h | h
+        · cases h
+        · left; exact h
+      · right; exact h
+    | move p =>
+      simp only [loop3]; apply loop3_deleted r
+      rcases h with h | h
+      · rcases List.mem_cons.mp h with h | h
+        · cases h
+        · left; exact h
+      · right; exact h
+    | sub f =>
+      simp only [loop3]; apply loop3_deleted r
+      rcases h with h | h
+      · rcases List.mem_cons.mp h with h | h
+        · cases h
+        · left; exact h
+      · right; exact h
+    | fn g a =>
+      simp only [loop3]; apply loop3_deleted r
+      rcases h with h | h
+      · rcases List.mem_cons.mp h with h | h
+        · cases h
+        · left; exact h
+      · right; exact h
+
+theorem mem_compileMap {k : String} {e : Entry} : ∀ m : Mapping, (k, e) ∈ m → (k, e.compile) ∈ compileMap m
+  | [], h => by cases h
+  | (k', e') :: r, h => by
+    simp only [compileMap]
+    rcases List.mem_cons.mp h with h | h
+    · cases h; exact List.mem_cons_self
+    · exact List.mem_cons_of_mem _ (mem_compileMap r h)
+
+theorem mem_compileMap_inv {k : String} {ce : CEntry} : ∀ m : Mapping, (k, ce) ∈ compileMap m →
+    ∃ e, (k, e) ∈ m ∧ ce = e.compile
+  | [], h => by simp [compileMap] at h
+  | (k', e') :: r, h => by
+    simp only [compileMap] at h
+    rcases List.mem_cons.mp h with h | h
+    · cases h; exact ⟨e', List.mem_cons_self, rfl⟩
+    · rcases mem_compileMap_inv r h with ⟨e, he, hc⟩
+      exact ⟨e, List.mem_cons_of_mem _ he, hc⟩
+
+/-- loop 1 establishes / keeps a constant whose key has no other entry -/
+theorem loop1_const {k : String} {v : Json} : ∀ (m : CMapping) (inp out out' : Obj),
+    (∀ e, (k, e) ∈ m → e = CEntry.const v) → loop1 m inp out = .ok out' →
+    ((k, CEntry.const v) ∈ m ∨ get k out = some v) → get k out' = some v
+  | [], _, out, out', _, h, hm => by
+    simp only [loop1] at h; cases h
+    rcases hm with hm | hm
+    · cases hm
+    · exact hm
+  | (k', e) :: r, inp, out, out', hu, h, hm => by
+    simp only [loop1] at h
+    rcases bindE_eq_ok h with ⟨o1, h1, h2⟩
+    apply loop1_const r inp o1 out' (fun e he => hu e (List.mem_cons_of_mem _ he)) h2
+    by_cases hk : k' = k
+    · subst hk
+      have := hu e List.mem_cons_self
+      subst this
+      simp only [step1] at h1; cases h1
+      right; exact get_set_same _ _ _
+    · rcases hm with hm | hm
+      · rcases List.mem_cons.mp hm with hm | hm
+        · cases hm; exact absurd rfl hk
+        · left; exact hm
+      · right; rw [step1_frame e inp out o1 hk h1]; exact hm
+
+theorem loop2_const {k : String} {v : Json} : ∀ (m : CMapping) (out : Obj),
+    (∀ e, (k, e) ∈ m → e = CEntry.const v) → get k (loop2 m out) = get k out
+  | [], out, _ => by simp [loop2]
+  | (k', e) :: r, out, hu => by
+    have hr : ∀ e, (k, e) ∈ r → e = CEntry.const v := fun e he => hu e (List.mem_cons_of_mem _ he)
+    cases e with
+    | move p =>
+      have hk : k' ≠ k := by
+        intro hk; subst hk
+        have := hu _ List.mem_cons_self
+        cases this
+      simp only [loop2]; rw [loop2_const r _ hr, get_set_other _ hk]
+    | const v' => simp only [loop2]; exact loop2_const r out hr
+    | deleted => simp only [loop2]; exact loop2_const r out hr
+    | sub f => simp only [loop2]; exact loop2_const r out hr
+    | fn g a => simp only [loop2]; exact loop2_const r out hr
+
+theorem loop3_const {k : String} {v : Json} : ∀ (m : CMapping) (out : Obj),
+    (∀ e, (k, e) ∈ m → e = CEntry.const v) → get k (loop3 m out) = get k out
+  | [], out, _ => by simp [loop3]
+  | (k', e) :: r, out, hu => by
+    have hr : ∀ e, (k, e) ∈ r → e = CEntry.const v := fun e he => hu e (List.mem_cons_of_mem _ he)
+    cases e with
+    | deleted =>
+      have hk : k' ≠ k := by
+        intro hk; subst hk
+        have := hu _ List.mem_cons_self
+        cases this
+      simp only [loop3]; rw [loop3_const r _ hr, get_erase_other hk]
+    | const v' => simp only [loop3]; exact loop3_const r out hr
+    | move p => simp only [loop3]; exact loop3_const r out hr
+    | sub f => simp only [loop3]; exact loop3_const r out hr
+    | fn g a => simp only [loop3]; exact loop3_const r out hr
 
 /-! ### version bookkeeping of the loop -/
 
